@@ -41,8 +41,10 @@ NoWaitingAtRest(O) ==
 \* only tasks of the definition (of the workflow and of the sub-workflows it calls) are ever executed
 KnownTasksOnly(D, O) == \A t \in Rng(O.tk) : D.tasks[t.name].wf # "unknown"
 DeclaredErrorsOnly(ev, declared, faulty) ==
-  \/ ev.exc = "none" \/ ev.exc \in declared
-  \/ (ev.exc = "ValueError" /\ (ev.dup \/ faulty))      \* "already completed" rejection of a redelivered / racing result
+  /\ \/ ev.exc = "none" \/ ev.exc \in declared
+     \/ (ev.exc = "ValueError" /\ (ev.dup \/ faulty))      \* "already completed" rejection of a redelivered / racing result
+  \* ... including the exceptions that the post-commit queue and the schedulers catch and only log
+  /\ \A x \in Rng(ev.swallowed) : x \in declared \/ (x = "ValueError" /\ (ev.dup \/ faulty))
 
 (* ------------------------------- C03 ---------------------------------- *)
 LegalWf(a, b, what) ==
